@@ -292,6 +292,12 @@ func (p *Pipeline) reload(previousGeneration *Pipeline) {
 		var prev filters.Filter
 		if previousGeneration != nil {
 			prev = previousGeneration.getFilter(spec.Name())
+			// a filter can only inherit from a filter of its own kind, a
+			// filter of another kind which happens to have the same name is
+			// not a previous generation of it.
+			if prev != nil && prev.Kind().Name != spec.Kind() {
+				prev = nil
+			}
 		}
 		if prev == nil {
 			filter.Init()
